@@ -36,6 +36,10 @@ struct Stats {
     trunc_offsets: u64,
     drains: u64,
     tlc_tail: Vec<String>,
+    /// histories the code reproduces exactly and on which the SPECIFICATION's own state breaks a clause (the generator ran
+    /// with a named deviation switched on, e.g. FollowF3): occurrences of a known finding, recognised by TLC, not by the harness
+    flags: Vec<Value>,
+    n_flags: u64,
 }
 
 fn feat(s: &mut Stats, k: &str) {
@@ -146,7 +150,7 @@ fn drain(b: &mut Box<dyn BookDyn>, d: &Value) -> Result<Value, String> {
     }))
 }
 
-fn replay_one(cfg: &Cfg, idx: u64, path: &[Value], exp: &Value, dr: &Value, s: &mut Stats) {
+fn replay_one(cfg: &Cfg, idx: u64, path: &[Value], exp: &Value, dr: &Value, f3: bool, s: &mut Stats) {
     let mut books: Vec<Box<dyn BookDyn>> = vec![new_book(cfg.levels, bourse_verif_harness::time_r(cfg.t0), cfg.tick * bourse_verif_harness::price_scale(), cfg.trading)];
     let mut problem: Option<String> = None;
     let mut last_ret = Value::Null;
@@ -249,6 +253,12 @@ fn replay_one(cfg: &Cfg, idx: u64, path: &[Value], exp: &Value, dr: &Value, s: &
                 "drain": dr,
                 "cfg": {"levels": cfg.levels, "tick": cfg.tick, "trading": cfg.trading, "t0": cfg.t0}}));
         }
+    } else if f3 {
+        s.n_flags += 1;
+        if s.flags.len() < 4 {
+            s.flags.push(json!({"spec_flag": "F3", "what": "the code does exactly what the specification does with FollowF3 = TRUE, and that state breaks C12_OnGrid",
+                "path": path, "exp": exp, "cfg": {"levels": cfg.levels, "tick": cfg.tick, "trading": cfg.trading, "t0": cfg.t0}}));
+        }
     }
 }
 
@@ -292,7 +302,7 @@ fn main() {
         }
         cfg.trunc_every = 1;
         let mut s = Stats::default();
-        replay_one(&cfg, 0, v["path"].as_array().unwrap(), &v["exp"], &v["drain"], &mut s);
+        replay_one(&cfg, 0, v["path"].as_array().unwrap(), &v["exp"], &v["drain"], v["f3"] == json!(true), &mut s);
         println!("{}", json!({"lines": 1, "n_mismatch": s.n_mismatch, "mismatches": s.mismatches}));
         return;
     }
@@ -318,7 +328,7 @@ fn main() {
                             if s.samples.len() < 2 && path.len() >= 3 && v["exp"]["trades"].as_array().map(|a| !a.is_empty()).unwrap_or(false) {
                                 s.samples.push(json!({"path": path, "exp_trades": v["exp"]["trades"], "exp_views": v["exp"]["views"]}));
                             }
-                            replay_one(&cfg, idx, &path, &v["exp"], &v["drain"], &mut s);
+                            replay_one(&cfg, idx, &path, &v["exp"], &v["drain"], v["f3"] == json!(true), &mut s);
                         }
                         Some(Err(e)) => {
                             s.n_mismatch += 1;
@@ -365,6 +375,8 @@ fn main() {
         tot.trunc_snapshots += s.trunc_snapshots;
         tot.trunc_offsets += s.trunc_offsets;
         tot.drains += s.drains;
+        tot.n_flags += s.n_flags;
+        for x in s.flags { if tot.flags.len() < 4 { tot.flags.push(x) } }
         for m in s.mismatches {
             let kept = tot.mismatches.iter().filter(|x| x["offgrid_modify"] == m["offgrid_modify"]).count();
             if kept < 12 { tot.mismatches.push(m) }
@@ -377,6 +389,6 @@ fn main() {
         "lines": tot.lines, "ops": tot.ops, "n_mismatch": tot.n_mismatch, "mismatches": tot.mismatches,
         "features": tot.feats, "samples": tot.samples,
         "trunc_snapshots": tot.trunc_snapshots, "trunc_offsets": tot.trunc_offsets, "drains": tot.drains,
-        "tlc_output": tot.tlc_tail,
+        "tlc_output": tot.tlc_tail, "spec_flags": tot.flags, "n_spec_flags": tot.n_flags,
     }));
 }
